@@ -166,7 +166,7 @@ func Main(o Options) int {
 func (r *runner) childEnv(k int) []string {
 	env := os.Environ()
 	if r.info.Race {
-		env = append(env, fmt.Sprintf("GORACE=halt_on_error=0 history_size=5 log_path=%s", filepath.Join(r.o.WorkDir, fmt.Sprintf("race.%d", k))))
+		env = append(env, fmt.Sprintf("GORACE=halt_on_error=0 exitcode=0 history_size=5 log_path=%s", filepath.Join(r.o.WorkDir, fmt.Sprintf("race.%d", k))))
 	}
 	return env
 }
